@@ -156,6 +156,11 @@ impl Candidate {
     /// # Returns
     /// 接辞と自立語をセットで取得した漢字と読みのタプル。candidateとして接辞が含まれない場合にはNoneを返す
     pub fn to_string_with_affix(&self) -> Option<(String, String)> {
+        // 探索結果は文頭を表すnodeから始まるため、それは読み飛ばす
+        if matches!(self.current_node, graph::Node::Bos) {
+            return self.next.as_ref().and_then(|v| v.to_string_with_affix());
+        }
+
         let current = self;
         let next = self.next.as_ref().filter(|v| v.is_word_node());
         let next_to_next = self
